@@ -739,7 +739,27 @@ func Gen(prop, tier string, seed, run uint64) Plan {
 			{C: CMut, K: "AddTag", Name: "service/t", Color: "#123456", Def: def},
 			{C: CMut, K: "SetConv", Name: "service/t", Convs: []string{p.Converters[r.IntN(len(p.Converters))]}},
 		}
-		if r.IntN(2) == 0 {
+		if v := r.IntN(3); v == 0 && len(p.Converters) > 1 {
+			// a second tag gets another converter while the first converter's job may
+			// be running, then the first converter's file disappears (and comes back):
+			// the second converter's queue must still be served
+			a := mutOps[1].Convs[0]
+			b := a
+			for _, c := range p.Converters {
+				if c != a {
+					b = c
+				}
+			}
+			def2 := []string{"id:0:", "sport:80,443,1337,8080,31337,53", "protocol:tcp", "cport:1:"}[r.IntN(4)]
+			mutOps = append(mutOps, Op{C: CMut, K: "AddTag", Name: "service/s", Color: "#123456", Def: def2})
+			for i, m := 0, 3+r.IntN(12); i < m; i++ {
+				mutOps = append(mutOps, Op{C: CMut, K: "UpdColor", Name: "service/t", Color: colors[r.IntN(len(colors))]})
+			}
+			mutOps = append(mutOps, Op{C: CMut, K: "SetConv", Name: "service/s", Convs: []string{b}}, Op{C: CMut, K: "ConvRemove", Conv: a})
+			if r.IntN(2) == 0 {
+				mutOps = append(mutOps, Op{C: CMut, K: "ConvCreate", Conv: a}, Op{C: CMut, K: "SetConv", Name: "service/t", Convs: []string{a}})
+			}
+		} else if v == 1 {
 			// a second tag with overlapping matches shares the converter and loses it
 			// again later, possibly while streams of both tags wait in the queue
 			c := mutOps[1].Convs
